@@ -194,6 +194,16 @@ def run(rep, work, tier, seed, only=None):
         if not rec['ok'] or 'unit_syndromes' not in rec:
             continue
         n = rec['n']
+        # history: the object was queried (measure_syndrome etc. on dense and sparse arguments) BEFORE it was deformed
+        msd = [d_ for d_ in rec.get('used_then_deformed_diff', []) if d_.startswith('measure_syndrome')]
+        if rec.get('deformation'):
+            rep.case(('syn_after_deform', rec['tag']), True)
+            rep.count('measure_syndrome_used_then_deformed')
+            if msd:
+                key = dict(cc.inst_key(rec), site='measure_syndrome-history')
+                rep.violation(key, '%s: measure_syndrome was used, then the code object was deformed: %s now differs from bs_prod with the '
+                              'deformed stabilizer matrix (what a freshly deformed object returns)' % (rec['tag'], ', '.join(msd)),
+                              {'instance': key, 'history': ['measure_syndrome(e)', 'deform', 'measure_syndrome(e)'], 'differs': msd})
         rep.case(('unit_syn', rec['tag']), True)
         rep.count('unit_syndromes')
         for j, syn in enumerate(rec['unit_syndromes']):
